@@ -5,7 +5,8 @@ VARIABLE c
 \* quick: pairwise-style slice -- all of ae x ct x size x pre with the other dimensions tied to a rotating pattern
 Slice == {x \in Cases : /\ x.level \in {-1, 5}
                         /\ x.pos = (IF x.level = 5 THEN "alone" ELSE IF x.explicit THEN "inner" ELSE "outer")
-                        /\ x.status = (IF x.compressible THEN 200 ELSE IF x.setcl THEN 201 ELSE 404)}
+                        /\ x.status = (IF x.compressible THEN 200 ELSE IF x.setcl THEN 201 ELSE 404)
+                        /\ x.flush = (x.explicit = x.compressible)}
 Init == c \in (IF Quick THEN Slice ELSE Cases)
 Next == UNCHANGED c
 Emit == PrintT("CASE " \o ToJson(c))
